@@ -64,6 +64,9 @@ class PinRandom:
     def choice(self, seq):
         self.seam("entropy")
         self.calls += 1
+        if self.calls > 50000:
+            raise RuntimeError("SIM-HANG: PIN generator drew %d characters without producing "
+                               "a valid PIN" % self.calls)
         if self.left > 0:
             self.left -= 1
             digits = [c for c in seq if c.isdigit()]
